@@ -56,7 +56,7 @@ Frag(pos, kind) ==
 Pres == {"none", "spaceless0", "spaceless1", "allowed", "loopinc", "macrocall"}
 PreStmts(pre) ==
     CASE pre = "spaceless0" -> <<Spaceless(<<If1(Var("nosuchvar"), <<T(<<120>>)>>)>>), Spaceless(<<>>)>>      \* bodies that render to nothing
-      [] pre = "spaceless1" -> <<Spaceless(<<T(<<60, 98, 62>>), PrintS(SpyF("sf", "g3", LS(sA))), T(<<60, 47, 98, 62>>)>>)>>
+      [] pre = "spaceless1" -> <<Spaceless(<<T(<<60, 98, 62, 32, 10>>), T(<<60, 105, 62>>), PrintS(SpyF("sf", "g3", LS(sA))), T(<<60, 47, 105, 62, 32, 60, 47, 98, 62>>)>>)>>
       [] pre = "allowed"    -> <<PrintS(SpyF("sf", "g3", Spy("sp", "g4", LS(sA)))), Apply("upper", <<>>, <<T(sA)>>)>>
       [] pre = "loopinc"    -> <<For1("j", L12, <<Include(LS(NT.t5), Hash(<<LS(NT.z)>>, <<Var("j")>>), TRUE, TRUE, FALSE, FALSE)>>)>>
       [] pre = "macrocall"  -> <<PrintS(Call("mm", <<LI(3)>>))>>
